@@ -18,6 +18,17 @@ class Peer(object):
     def compress(self, message, final=False):
         """final=True: flush with a DEFLATE block that has BFINAL set and append 0x00 (RFC 7692 section 7.2.3.4); zlib cannot
         go on after Z_FINISH, so the next message starts a new DEFLATE stream (with an empty window)."""
+        if final == "mid":
+            # the DEFLATE stream ends (BFINAL) in the middle of the message; the rest of the message is a new stream, which
+            # later messages continue
+            if self._co is None or self.server_nct:
+                self._co = zlib.compressobj(zlib.Z_DEFAULT_COMPRESSION, zlib.DEFLATED, -max(self.swb, 9))
+            k = len(message) // 2
+            part1 = self._co.compress(message[:k]) + self._co.flush(zlib.Z_FINISH)
+            self._co = zlib.compressobj(zlib.Z_DEFAULT_COMPRESSION, zlib.DEFLATED, -max(self.swb, 9))
+            part2 = self._co.compress(message[k:]) + self._co.flush(zlib.Z_SYNC_FLUSH)
+            assert part2.endswith(TAIL)
+            return part1 + part2[:-4]
         if final:
             if self._co is None or self.server_nct:
                 self._co = zlib.compressobj(zlib.Z_DEFAULT_COMPRESSION, zlib.DEFLATED, -max(self.swb, 9))
